@@ -38,6 +38,9 @@ type Director struct {
 	// altered request was accepted while the deciding oracle belongs to
 	// another property): the run ends quietly
 	desync bool
+	// keySuffix marks the violations of a scenario whose fault model goes beyond what the code can be expected to
+	// survive, so that they are told apart from the same oracle firing elsewhere
+	keySuffix string
 }
 
 func NewDirector(w *World, props ...string) *Director {
@@ -219,7 +222,7 @@ func (d *Director) checkLedger(before ledgerSnap, op string, wantDelta *big.Int,
 	}
 	got := new(big.Int).Sub(after.getters, before.getters)
 	if got.Cmp(wantDelta) != 0 {
-		d.bad("C01", "ledger_sum", "sum of credit changes across "+class, "%s: total credit went from %s to %s (delta %s, expected %s)", op, before.getters, after.getters, got, wantDelta)
+		d.bad("C01", "ledger_sum", "sum of credit changes across "+class+d.keySuffix, "%s: total credit went from %s to %s (delta %s, expected %s)", op, before.getters, after.getters, got, wantDelta)
 	}
 }
 
